@@ -57,6 +57,13 @@ UNPROVED = ["no_panic_full (∀ bs, every entry point returns ok/err): false on 
             "xar_alloc_request_not_bounded_by_file_orig, xar_patch_entries_unbounded_orig (F12-panic-xar.Open, F13-alloc-xar.Open, "
             "F13-alloc-xar.Sign: fixed)"]
 IMPL_PARALLEL = 12
+# a deadline hit or an over-bound allocation is confirmed by running the op again alone in a fresh process with a deadline
+# of 30 s (default 2 s): a genuine hang or allocation reproduces, an artefact of a loaded machine does not
+RETRY_ENV = {"C11_DEADLINE_MS": "30000"}
+
+
+def retry_alone(op, il):
+    return il == "timeout" or il.startswith("alloc ") or il.startswith("crash") or il == "not-run"
 IMPL_TIMEOUT = 3000
 
 MODEL_TOKENS = ("APKBLK", "CSBLOB", "XAPSIG", "BINLOAD")
